@@ -29,8 +29,13 @@ THEOREMS = [
     "PorepyVerif.C12.tpfa_exact_neumann",
     "PorepyVerif.C12.tpfa_bound_pressure_exact_Korth",
     "PorepyVerif.C12.tpfa_bound_pressure_dirichlet",
+    "PorepyVerif.C12.tpfa_hydrostatic_zero_flux",
+    "PorepyVerif.C12.tpfa_hydrostatic_bound_pressure",
+    "PorepyVerif.C12.tpfa_eq_mpfa_Korth",
+    "PorepyVerif.C12.tpfa_eq_mpfa_Korth_entries",
 ]
 LEAN_MODULES = ["PorepyVerif.C12.Props"]
+LEAN_DIRS = ["C11"]  # Props imports the certified 2-D MPFA model of C11 (tpfa_eq_mpfa_Korth): its sources are grep'd too
 AUDIT = "PorepyVerif/C12/Audit.lean"
 DRIVER = "PorepyVerif/C12/Driver.lean"
 N = {"quick": 200, "thorough": 2500}
@@ -46,14 +51,15 @@ TRUSTED = [
     "modelled, not verified: the numpy/scipy glue of Tpfa.discretize (broadcasting, bincount, coo->csr conversion, dia->csr dropping zeros); compared on every case",
     "grid geometry (face normals, centres) and topology are INPUTS of the model, taken from the real grid object (C19/C21 cover them)",
     "not modelled: the deprecated periodic_face_map branch, the hidden Aavatsmark_transmissibilities option (norms), IEEE behaviour when a half transmissibility or a harmonic sum vanishes (such cases are flagged by the model, skipped and counted)",
-    "MPFA agreement on Cartesian/tensor grids with diagonal K is oracle-only (no Lean model of MPFA here; see C11)",
+    "MPFA agreement: proved (tpfa_eq_mpfa_Korth) against the executable 2-D MPFA model of C11 (PorepyVerif/C11/Model.lean, tied to pp.Mpfa by C11's own correspondence check) for K-orthogonal 2-D grids with eta = 0; 1-D (Mpfa falls back to Tpfa) and 3-D are checked by the oracle on the real code only",
+    "ofGrid2 (conversion of a C11 grid into the TPFA model's input: z = 0, kzz = 1, non-Dirichlet boundary faces are Neumann) is a definition of the comparison, not compared with code",
 ]
 EXPLANATION = ("FULL for the formula: the model is Tpfa.discretize over Q (half transmissibility (d.Kn)/(d.d), harmonic combination, "
                "Dirichlet/Neumann/internal treatment, all six stored matrices as triplets). Theorems hold for every topology, geometry, tensor and "
                "boundary assignment: symmetry of div*flux, single-valued face flux, conservation, zero flux for constants, M-matrix structure for "
                "well-formed grids with positive half transmissibilities, exactness of interior / Dirichlet / Neumann fluxes and of the boundary "
-               "pressure reconstruction for affine pressures under K-orthogonality. Partial: binary64 rounding and the numpy glue are bridged by "
-               "the correspondence check (tolerance 1e-10, sparsity patterns exact); agreement with MPFA is checked by the oracle only.")
+               "pressure reconstruction for affine pressures under K-orthogonality, hydrostatic consistency of vector_source / bound_pressure_vector_source, and equality of the flux / bound_flux matrices with those of the certified 2-D MPFA model of C11 on K-orthogonal grids (two-point gradients solve every interaction region; uniqueness by the nonsingularity certificates). Partial: binary64 rounding and the numpy glue are bridged by "
+               "the correspondence check (relative tolerance 1e-10, sparsity patterns exact); agreement with the real pp.Mpfa in 1-D / 3-D is checked by the oracle only.")
 ASSUMPTIONS = ["class T comparison of matrix values, relative: |impl - model| <= 1e-10 * max(|model|, 1e-4 * largest entry of that matrix) (bound_pressure_face: 1e-9 per entry); oracle tolerances are relative to max |K| |n| / |d|; sparsity patterns, shapes, formats and dictionary keys are compared exactly",
                "boundary faces have exactly one neighbouring cell (grid invariant, C21)"]
 
